@@ -366,14 +366,26 @@ impl Prop for C10 {
         let kind = *rng.pick(&KINDS);
         let chunk = match rng.below(8) {
             0 => None,
-            _ => Some(*rng.pick(&[1usize, 2, 3, 8, 17, 64, 300, 4096, 16384])),
+            _ => Some(*rng.pick(&[1usize, 2, 3, 8, 17, 64, 300, 4096, 16384, 65536])),
         };
-        let max_item = *rng.pick(&[32usize, 64, 200, 1000, 4096]);
+        let max_item = *rng.pick(&[32usize, 64, 200, 1000, 4096, 4096, 40_000]);
         let sizes = match rng.below(6) {
             0 | 1 => ReadSizes::Full,
             2 | 3 => ReadSizes::LinePerRead,
             4 => ReadSizes::Random(*rng.pick(&[3usize, 40, 1000, 20000])),
             _ => ReadSizes::OneByte,
+        };
+        // byte-wise and tiny random reads cost a call per byte: keep their streams short by keeping
+        // the bound (chunk, max item) small
+        let slow = matches!(sizes, ReadSizes::OneByte | ReadSizes::Random(3))
+            || matches!(chunk, Some(c) if c <= 8);
+        let (chunk, max_item) = if slow {
+            (
+                Some(chunk.unwrap_or(4096).min(4096)),
+                max_item.min(4096),
+            )
+        } else {
+            (chunk, max_item)
         };
         let b = bound(chunk.unwrap_or(16 << 10), max_item);
         let factor = match tier {
@@ -381,7 +393,7 @@ impl Prop for C10 {
             Tier::Thorough => 8 + rng.below(120),
         };
         // one-byte reads are slow: keep those streams at the minimum length
-        let factor = if sizes == ReadSizes::OneByte { 8 } else { factor };
+        let factor = if slow { 8 } else { factor };
         StreamCase {
             kind,
             lit: rng.below(5) as u8,
